@@ -250,11 +250,15 @@ class CSSStyleRule(cssrule.CSSRule):
             current style object.
         """
         self._checkReadonly()
+        old = getattr(self, '_style', None)
         if isinstance(style, str):
             self._style = CSSStyleDeclaration(cssText=style, parentRule=self)
         else:
             style._parentRule = self
             self._style = style
+        if old is not None and old is not self._style and old.parentRule is self:
+            # the replaced block is not part of this rule anymore
+            old._parentRule = None
 
     style = property(
         lambda self: self._style,
